@@ -164,6 +164,7 @@ PROPS["C09"] = {
         rapid("signed-tokens", "token", "TestVerif_C09_SignedTokens", 2500, 15000),
         rapid("match-agreement", "token", "TestVerif_C09_MatchAgreement", 8000, 60000),
         rapid("token-login-username", "group", "TestVerif_C09_TokenLoginUsername", 1500, 10000),
+        rapid("token-join-machine", "rtpconn", "TestVerif_C09_TokenJoinMachine", 300, 2500, quick_shards=4),
         rapid("global-admin-token", "webserver", "TestVerif_C09_GlobalAdminToken", 1500, 10000),
     ],
     "technique": "property-based testing (rapid) against a reference decision; tokens generated from a valid one outwards",
